@@ -20,15 +20,17 @@ Local Open Scope char_scope.
     (41fd1db: QueryParamsRemover also works on a query that does not parse; it only
     concerns the query of the upstream URL, which no C08 theorem talks about);
     [fxq6]: C15-F6 (5270ed2: the query parameters are always removed setting by setting);
-    [fx6]: C08-F6 repaired (candidate fixes/C08-F6.diff: an X-Forwarded-Uri that does not parse is used as it is);
+    [fx6]: C08-F6 repaired (d3f6cd7: an X-Forwarded-Uri that does not parse is used as it is);
     [fx5]: C08-F5 repaired (6d0a3af: captured values are decoded piece by piece around the
     encoded slashes, without a place-holder) *)
 Record fixes := { fx2 : bool; fx3 : bool; fxq : bool; fx5 : bool; fxq6 : bool; fx6 : bool }.
 Definition pinned : fixes := {| fx2 := false; fx3 := false; fxq := false; fx5 := false; fxq6 := false; fx6 := false |}.
 (** the tree as it is now *)
-Definition repaired : fixes := {| fx2 := true; fx3 := true; fxq := true; fx5 := true; fxq6 := true; fx6 := false |}.
-(** the tree with the candidate repair of C08-F6 *)
-Definition repaired_F6 : fixes := {| fx2 := true; fx3 := true; fxq := true; fx5 := true; fxq6 := true; fx6 := true |}.
+Definition repaired : fixes := {| fx2 := true; fx3 := true; fxq := true; fx5 := true; fxq6 := true; fx6 := true |}.
+(** the same under the name the check configuration uses since fix: commit d3f6cd7 (C08-F6) *)
+Definition repaired_F6 : fixes := repaired.
+(** the tree before d3f6cd7 (kept to document finding C08-F6) *)
+Definition before_F6 : fixes := {| fx2 := true; fx3 := true; fxq := true; fx5 := true; fxq6 := true; fx6 := false |}.
 (** the tree before 6d0a3af (kept to document finding C08-F5) *)
 Definition before_F5 : fixes := {| fx2 := true; fx3 := true; fxq := true; fx5 := false; fxq6 := false; fx6 := false |}.
 (** the tree after a779db8 alone *)
@@ -356,9 +358,9 @@ Definition serve_envoy (fx : fixes) (rules : list rule) (dflt : bool) (host raw 
     original request target over in the header).  The header value is parsed with
     url.Parse; modelled for values [raw]?[query] whose path starts with one '/' and
     has no '#'.  If it does not parse (malformed escape) the code AS IT
-    IS silently falls back to the target of the proxy's own request (finding
-    C08-F6); [fx6] = the candidate repair fixes/C08-F6.diff: the value is then taken
-    as it is, like the Envoy entry does.  The query is re-encoded from the parsed
+    before d3f6cd7 silently fell back to the target of the proxy's own request (finding
+    C08-F6); [fx6] = with that fix: the value is taken as it is, like the Envoy entry
+    does.  The query is re-encoded from the parsed
     values (url.Values.Encode: sorted, unparsable settings dropped). *)
 Definition ctl_byte (c : ascii) : bool := (nb c <? 32)%N || (nb c =? 127)%N.
 
